@@ -199,6 +199,9 @@ class Frame:
 # ------------------------------------------------------------------------------------- numbers / text
 
 def fmt_num(x):
+    """Rust's `{}` for f64: shortest digits that round-trip, positional notation, never an exponent.
+    Among equally short candidates Rust takes the one closest to the exact value, an exact tie going
+    away from zero (CPython's repr breaks that tie to even)."""
     if x != x:
         return "NaN"
     if x == math.inf:
@@ -207,23 +210,18 @@ def fmt_num(x):
         return "-inf"
     if x == 0:
         return "-0" if math.copysign(1.0, x) < 0 else "0"
+    import decimal
     r = repr(x)
-    if "e" not in r and "E" not in r:
-        if r.endswith(".0"):
-            r = r[:-2]
-        return r
-    mant, exp = r.lower().split("e")
-    exp = int(exp)
-    sign = ""
-    if mant.startswith("-"):
-        sign = "-"
-        mant = mant[1:]
-    if "." in mant:
-        ip, fp = mant.split(".")
-    else:
-        ip, fp = mant, ""
-    digits = ip + fp
-    point = len(ip) + exp
+    mant = r.lower().split("e")[0].lstrip("-").replace(".", "").lstrip("0")
+    nd = len(mant.rstrip("0")) or 1
+    exact = decimal.Decimal(x)
+    ctx = decimal.Context(prec=nd, rounding=decimal.ROUND_HALF_UP)
+    q = ctx.create_decimal(exact)
+    if float(q) != x:
+        q = decimal.Decimal(r)
+    sign, digits, exp = q.as_tuple()
+    digits = "".join(str(d) for d in digits)
+    point = len(digits) + exp
     if point <= 0:
         s = "0." + "0" * (-point) + digits
     elif point >= len(digits):
@@ -232,7 +230,7 @@ def fmt_num(x):
         s = digits[:point] + "." + digits[point:]
     if "." in s:
         s = s.rstrip("0").rstrip(".")
-    return sign + s
+    return ("-" if sign else "") + s
 
 
 NUM_RE = re.compile(r"^[+-]?(?:inf|infinity|nan|(?:[0-9]+\.?[0-9]*|\.[0-9]+)(?:[eE][+-]?[0-9]+)?)$", re.I)
@@ -1334,6 +1332,8 @@ class Interp:
             if type(a) is float and type(b) is float:
                 return a + b
             if type(a) is str and type(b) is str:
+                if len(a) + len(b) > 200000:
+                    raise ModelUnsupported("string too long")
                 return a + b
             self.throw("TypeError", "Binary operands must be two numbers or two strings.")
         if type(a) is not float or type(b) is not float:
@@ -1526,6 +1526,15 @@ class Interp:
         return cur.inbox
 
     def fiber_main(self, fb):
+        try:
+            self.fiber_main_inner(fb)
+        except FiberKill:
+            pass
+        except BaseException as e:   # never leave the caller blocked
+            self.final = ("unsupported", "model fiber crashed: %r" % (e,))
+            self.finish_all()
+
+    def fiber_main_inner(self, fb):
         try:
             clo = fb.closure
             args = [fb.inbox] if len(clo.fn.params) == 1 else []
